@@ -280,14 +280,18 @@ def c07(tier):
                 invariants=inv, properties=pr, view="ViewFaults")
     two = dict(base, level=7, prune="OnlyPrune", keys="KFaults3", maxlive=2, maxbatch=2, maxlost=1,
                view="ViewFaultsLast")
+    # shared interior nodes (count 2) above a lost node, pruning trie: set x 4, lose, failing call, retry
+    shared = dict(base, level=7, prune="OnlyPrune", keys="KShare4", look="LShare4", vals="VOne33", maxlive=4,
+                  maxlost=1, features="FFaultsDirect")
     return generic("C07", tier,
-                   [dict(base, level=5, features="FFaultsDirect"),
+                   [dict(base, level=5, features="FFaultsDirect"), shared,
                     dict(base, level=5, prune="OnlyPrune", keys="KFaults3", maxlive=2, maxbatch=1),
                     # a pruning trie, batches of two operations, one node lost: with the previous call in the
                     # view, a batch that is left after one of its operations hit the missing node is replayed
                     # behind exactly that history (7 calls: set, set, lose, begin, op, failing op, abort)
                     two],
                    [dict(base, level=6, features="FFaultsDirect", maxlost=3), dict(base, level=5), two,
+                    dict(shared, level=8),
                     dict(base, level=5, vals="VQuick", features="FFaultsDirect")],
                    modes=("faults",), ntr=(150, 2000),
                    sim=dict(base, features="FFaultsNoop", maxlost=3, maxlive=4, emit="EmitC07"),
